@@ -77,6 +77,9 @@ enum MultiplexerMessage {
 /// Messages sent by [`QuicSocket`]s to [`QuicMultiplexer`]
 enum SocketMessage {
     Close(quiche::ConnectionId<'static>),
+    /// The socket has sent packets on its own: the timers of the connection
+    /// (loss detection in the first place) have to be rescheduled
+    Sent(quiche::ConnectionId<'static>),
 }
 
 struct HandshakingConnection {
@@ -686,15 +689,28 @@ impl QuicMultiplexer {
         for conn_id in timedout {
             self.deadlines.remove(&conn_id);
 
-            match self.connections.get_mut(&conn_id) {
-                None => log_id!(
-                    debug,
-                    self.id,
-                    "Expired connection not found: {:?}",
-                    conn_id
-                ),
-                Some(Connection::Handshake(conn)) => conn.quic_conn.lock().unwrap().on_timeout(),
-                Some(Connection::Established(conn)) => conn.quic_conn.lock().unwrap().on_timeout(),
+            let quic_conn = match self.connections.get(&conn_id) {
+                None => {
+                    log_id!(
+                        debug,
+                        self.id,
+                        "Expired connection not found: {:?}",
+                        conn_id
+                    );
+                    continue;
+                }
+                Some(Connection::Handshake(conn)) => conn.quic_conn.clone(),
+                Some(Connection::Established(conn)) => conn.quic_conn.clone(),
+            };
+
+            let mut quic_conn = quic_conn.lock().unwrap();
+            quic_conn.on_timeout();
+            // A loss detection timer leaves probe packets to send and is followed by the next one
+            if let Err(e) = flush_timeout_packets(&mut quic_conn, &self.socket, &self.id) {
+                log_id!(debug, self.id, "Failed to flush QUIC connection: {}", e);
+            }
+            if let Some(timeout) = quic_conn.timeout() {
+                self.deadlines.insert(conn_id, now + timeout);
             }
         }
 
@@ -707,6 +723,17 @@ impl QuicMultiplexer {
         match message {
             SocketMessage::Close(conn_id) => {
                 self.connections.remove(&conn_id);
+                Ok(())
+            }
+            SocketMessage::Sent(conn_id) => {
+                let timeout = match self.connections.get(&conn_id) {
+                    None => None,
+                    Some(Connection::Handshake(c)) => c.quic_conn.lock().unwrap().timeout(),
+                    Some(Connection::Established(c)) => c.quic_conn.lock().unwrap().timeout(),
+                };
+                if let Some(timeout) = timeout {
+                    self.update_connection_deadline(conn_id, timeout);
+                }
                 Ok(())
             }
         }
@@ -961,12 +988,15 @@ impl QuicSocket {
     }
 
     fn flush_pending_data(&self) -> io::Result<()> {
-        flush_pending_data(
-            &mut self.quic_conn.lock().unwrap(),
-            &self.udp_socket,
-            &self.peer,
-            &self.id,
-        )
+        let mut quic_conn = self.quic_conn.lock().unwrap();
+        let result = flush_pending_data(&mut quic_conn, &self.udp_socket, &self.peer, &self.id);
+        // `Full` is not an error: the multiplexer has a wake-up pending anyway
+        let _ = self
+            .mux_tx
+            .lock()
+            .unwrap()
+            .try_send(SocketMessage::Sent(quic_conn.source_id().into_owned()));
+        result
     }
 
     fn poll_h3_connection(&self) -> h3::Result<(u64, h3::Event)> {
@@ -1098,6 +1128,24 @@ fn flush_pending_data(
     loop {
         match quic_conn.send(&mut out) {
             Ok((n, _)) => udp_socket_send_to(udp_socket, &out[..n], peer, id)?,
+            Err(quiche::Error::Done) => break,
+            Err(e) => return Err(io::Error::new(ErrorKind::Other, e.to_string())),
+        }
+    }
+
+    Ok(())
+}
+
+/// Like [`flush_pending_data`], for a connection whose peer address is only known to itself
+fn flush_timeout_packets(
+    quic_conn: &mut quiche::Connection,
+    udp_socket: &UdpSocket,
+    id: &log_utils::IdChain<u64>,
+) -> io::Result<()> {
+    let mut out = [0; net_utils::MAX_UDP_PAYLOAD_SIZE];
+    loop {
+        match quic_conn.send(&mut out) {
+            Ok((n, info)) => udp_socket_send_to(udp_socket, &out[..n], &info.to, id)?,
             Err(quiche::Error::Done) => break,
             Err(e) => return Err(io::Error::new(ErrorKind::Other, e.to_string())),
         }
